@@ -66,7 +66,7 @@ def _retarget(t, boff):
     return t
 
 
-def eligible(F, caller, t, chain, stop):
+def eligible(F, caller, t, chain, stop, force=None):
     f = t['func']
     if not f.get('local') or not f.get('resolved', True):
         return None
@@ -76,6 +76,8 @@ def eligible(F, caller, t, chain, stop):
     if g.impl_trait:                       # trait impl methods are API surface of their trait
         return None
     name = g.name or ''
+    if force is not None and force(g):
+        return g if len(g.blocks) <= 120 else None
     if g.kind != 'Closure':
         if name in anchor_names() or (stop and stop(g)):
             return None
@@ -88,8 +90,8 @@ def eligible(F, caller, t, chain, stop):
     return g
 
 
-def inlined(F, fn, depth=2, stop=None, max_blocks=900):
-    key = ('inl', fn.path, depth, id(stop))
+def inlined(F, fn, depth=2, stop=None, max_blocks=900, force=None):
+    key = ('inl', fn.path, depth, id(stop), id(force))
     cache = F.__dict__.setdefault('_inline_cache', {})
     if key in cache:
         return cache[key]
@@ -105,7 +107,7 @@ def inlined(F, fn, depth=2, stop=None, max_blocks=900):
         t = b['t']
         if t['k'] != 'call' or d <= 0 or b.get('cleanup') or len(blocks) > max_blocks:
             continue
-        g = eligible(F, fn, t, chain, stop)
+        g = eligible(F, fn, t, chain, stop, force)
         if g is None:
             continue
         args = t['args']
